@@ -587,9 +587,12 @@ func (w *world) setFaults(fs []jFault, kindOnGet, kindOnWrite string, name func(
 
 func (w *world) clearFaults() {
 	for k, f := range w.faults {
+		parts := strings.SplitN(k, "/", 3)
 		if f.fired > 0 {
-			parts := strings.SplitN(k, "/", 3)
 			w.fired[parts[0]+"/"+parts[1]+"/"+f.Kind]++
+		} else {
+			// e.g. a fault on a write the closure had no reason to issue
+			w.fired["planned-but-call-not-issued:"+parts[0]+"/"+parts[1]+"/"+f.Kind]++
 		}
 	}
 	w.faults = map[string]*fault{}
